@@ -1,2 +1,132 @@
-def run(prop, seed):
-    return []
+"""Testing the checker both ways (DESIGN.md 6.4).
+
+Every variant is a one-site edit of a scratch copy of the repository's package (made
+under a fresh temporary directory outside /repo and /verif and removed afterwards):
+  * firing variants break one rule instance while the code still compiles; the named
+    rule must report a finding;
+  * neutral variants are behaviour-preserving edits; every rule of the property must
+    stay silent.
+A variant whose anchor text is not present in the current tree is skipped (the tree under
+analysis may itself have been edited); skipped variants are counted in the output."""
+import importlib
+import multiprocessing
+import os
+import shutil
+import sys
+import tempfile
+
+from .model import Model, AnalysisError, REPO
+
+
+def _load_variants():
+    from .variants import VARIANTS
+    return VARIANTS
+
+
+def apply_variant(root, v):
+    """returns False if the anchor is missing"""
+    edits = v['edits'] if 'edits' in v else [(v['file'], v['old'], v['new'])]
+    for file, old, new in edits:
+        p = os.path.join(root, file)
+        if not os.path.exists(p):
+            return False
+        with open(p, encoding='utf-8', newline=None) as f:
+            s = f.read()
+        if s.count(old) != 1:
+            return False
+        s = s.replace(old, new)
+        with open(p, 'w', encoding='utf-8') as f:
+            f.write(s)
+    return True
+
+
+def run_variant(args):
+    v, props = args
+    from . import rdefs
+    from .main import run_property
+    tmp = tempfile.mkdtemp(prefix='verif-selftest-')
+    try:
+        shutil.copytree(os.path.join(REPO, 'yalafi'), os.path.join(tmp, 'yalafi'),
+                        ignore=shutil.ignore_patterns('__pycache__'))
+        if not apply_variant(tmp, v):
+            return (v['id'], 'skipped', [])
+        try:
+            compile(open(os.path.join(tmp, (v.get('file') or v['edits'][0][0])),
+                         encoding='utf-8').read(), 'x', 'exec')
+        except SyntaxError as e:
+            return (v['id'], 'error', ['variant does not compile: %s' % e])
+        rdefs.reset_cache()
+        fired = set()
+        errs = []
+        try:
+            model = Model(repo=tmp)
+            for p in props:
+                viol, results = run_property(p, 'quick', 0, model=model, quiet=True, write=False)
+                for f in viol:
+                    fired.add(f.rule)
+        except AnalysisError as e:
+            errs.append('analysis error: %s' % e)
+        return (v['id'], 'ran', sorted(fired), errs)
+    finally:
+        shutil.rmtree(tmp, ignore_errors=True)
+
+
+def run(prop, seed, verbose=False, only=None):
+    """self-test for one property (or all if prop is None); returns list of failure texts"""
+    from .props import PROPS
+    variants = _load_variants()
+    jobs = []
+    for v in variants:
+        vprops = v['props']
+        if prop is not None and prop not in vprops:
+            continue
+        if only and v['id'] not in only:
+            continue
+        ps = [p for p in vprops if p in PROPS and (prop is None or p == prop)]
+        if not ps:
+            continue
+        jobs.append((v, ps))
+    if not jobs:
+        return []
+    import random
+    random.Random(seed).shuffle(jobs)
+    with multiprocessing.Pool(min(16, len(jobs))) as pool:
+        res = pool.map(run_variant, jobs)
+    byid = {v['id']: v for v, _ in jobs}
+    fails = []
+    skipped = 0
+    for rr in res:
+        vid, status = rr[0], rr[1]
+        v = byid[vid]
+        if status == 'skipped':
+            skipped += 1
+            if verbose:
+                print('  skipped  %s' % vid)
+            continue
+        if status == 'error':
+            fails.append('%s: %s' % (vid, rr[2]))
+            continue
+        fired, errs = set(rr[2]), rr[3]
+        exp = set(v['expect'])
+        if errs:
+            fails.append('%s: %s' % (vid, errs))
+        elif exp and not (exp <= fired):
+            fails.append('%s: expected %s to fire, got %s' % (vid, sorted(exp), sorted(fired)))
+        elif not exp and fired:
+            fails.append('%s: neutral variant raised %s' % (vid, sorted(fired)))
+        elif verbose:
+            print('  ok       %s -> %s' % (vid, sorted(fired) or 'silent'))
+    print('self-test%s: %d variant(s), %d skipped (anchor absent), %d failure(s)'
+          % (' ' + prop if prop else '', len(jobs), skipped, len(fails)))
+    for f in fails:
+        print('  SELFTEST-FAIL ' + f)
+    return fails
+
+
+if __name__ == '__main__':
+    import argparse
+    ap = argparse.ArgumentParser()
+    ap.add_argument('prop', nargs='?')
+    ap.add_argument('--only', nargs='*')
+    a = ap.parse_args()
+    sys.exit(1 if run(a.prop, 0, verbose=True, only=a.only) else 0)
